@@ -101,6 +101,9 @@ def run(ctx):
     _apply_interpolating(ctx, r10, reg)
     r12 = ctx.rule("C01.R12", "RATE: _MainModel constructed and evaluated END TO END over list tensors with recording appliers (two multiplicative appliers with two modifiers each, one additive applier, one applier without modifiers; 2 samples x 3 bins; unbatched and 2 batch rows; each clip on and off; by-sample and summed): rate[row][bin] = sum over samples of clipS?(prod over all factor cells x (nominal + sum over all delta cells)), then clipB? -- every axis reduction over the right axis", "RATE", floor=8)
     _rate_end_to_end(ctx, r12)
+    r13 = ctx.rule("C01.R13", "LAYOUT: the channel summary every model configuration is built on (interpreted, shared with C12.R8): channels sorted, bin counts and slices keyed and tiling in THAT order whatever the listing order", "LAYOUT", floor=1)
+    from .c12 import _summary_interpreted
+    _summary_interpreted(ctx, r13, repo)
     r11 = ctx.rule("C01.R11", "BUILD: _nominal_and_modifiers_from_spec interpreted END TO END with the real nominal builder and all seven modifier builders on a 3-channel (listed out of order) x 2-sample specification in which every modifier type occurs once or twice and one sample is absent from a channel: nominal rates and every builder tensor follow config.channels x config.samples; a cell is masked in exactly where the sample declares the modifier; undeclared cells carry the neutral data (nominal / 1 / 0); each applier receives its own type's modifiers, the configuration, its own builder data and the batch size", "BUILD", floor=9)
     _build_end_to_end(ctx, r11, reg)
 
